@@ -202,15 +202,17 @@ func (dts *DataTypeService) findMetadata(key []byte, dt dataType) (*metadata, er
 	if err == bitcask.ErrKeyNotFound {
 		exist = false
 	} else {
-		// key 存在, 进行解码
-		meta = decodeMetadata(metaBuf)
-		// 判断数据类型是否正确
-		if meta.dataType != dt {
-			return nil, ErrWrongTypeOperation
-		}
-		// 判断是否过期
-		if meta.expire != 0 && meta.expire <= time.Now().UnixNano() {
+		// key 存在, 先判断是否过期, 已过期的 key 对任何数据类型均视为不存在
+		// 类型与过期时间的编码位置对所有数据类型一致
+		expire, _ := binary.Varint(metaBuf[1:])
+		if expire != 0 && expire <= time.Now().UnixNano() {
 			exist = false // 过期仍视为不存在
+		} else {
+			// 判断数据类型是否正确, 类型不符时不应按元数据格式解码
+			if metaBuf[0] != dt {
+				return nil, ErrWrongTypeOperation
+			}
+			meta = decodeMetadata(metaBuf)
 		}
 	}
 
